@@ -1,4 +1,380 @@
-(** C08 — placeholder while the proofs are being written *)
-From CB Require Import Model.Monty.
-Theorem C08_placeholder : True. Proof. exact I. Qed.
-Print Assumptions C08_placeholder.
+(** C08 — Montgomery-form values stay canonical and track Z/mZ over any operation history.
+    Statements only; every statement is for ALL limb counts, ALL odd moduli (incl. m = 1), ALL values and ALL
+    operation lists.  The model (Model/Monty.v) follows src/modular/reduction.rs, boxed_monty_form/mul.rs
+    (almost-Montgomery CIOS multiplication), div_by_2.rs and the parameter constructors loop for loop; `one` follows
+    the REPAIRED code (commit b8bb467 = tools/fix_C08_1.diff, finding F6; [C08_params_one_before_fix_refuted] is
+    about the original expression).  Everything is proved outright (no `_partial` theorem).
+    Value level inside the model (owned and proved by other properties): Uint::rem / rem_vartime / rem_wide_vartime
+    (C02), shr1 / set_bit of div_by_2 (C05); the wide products (C03) and add_mod / sub_mod / neg_mod / double_mod (C07)
+    are the limb-level models of those properties, used through their proved lemmas. *)
+From CB Require Import Model.Limbs Model.AddSub Model.Mul Model.Div Model.ModArith Model.Monty
+  Proofs.WordP Proofs.LimbsP
+  Proofs.MontyNumP Proofs.MontyRedP Proofs.MontyAmmP Proofs.MontyFormP Proofs.MontyHistP Proofs.MontyTablesP
+  Proofs.MontyClaimsP.
+From Coq Require Import ZArith List String.
+Import ListNotations.
+Open Scope Z_scope.
+Notation length := List.length.
+
+(** * The specification's own arithmetic *)
+(** redc_spec n m x (64 n halvings in Z/mZ) is THE residue r < m with r * R = x (mod m), R = 2^(64 n) *)
+Theorem C08_spec_redc_char : forall n m x, Z.odd m = true -> 0 < m ->
+  0 <= redc_spec n m x < m /\ (redc_spec n m x * Bn n) mod m = x mod m.
+Proof. exact redc_spec_char. Qed.
+Print Assumptions C08_spec_redc_char.
+
+Theorem C08_spec_redc_unique : forall n m x r, Z.odd m = true -> 0 < m ->
+  0 <= r < m -> (r * Bn n) mod m = x mod m -> r = redc_spec n m x.
+Proof. exact redc_spec_unique. Qed.
+Print Assumptions C08_spec_redc_unique.
+
+(** retrieving the Montgomery form of v gives v back *)
+Theorem C08_spec_redc_of_form : forall n m v, Z.odd m = true -> 0 < m -> 0 <= v < m ->
+  redc_spec n m ((v * Bn n) mod m) = v.
+Proof. exact redc_of_form. Qed.
+Print Assumptions C08_spec_redc_of_form.
+
+(** half_mod m x is x / 2 in Z/mZ *)
+Theorem C08_spec_half : forall m x, Z.odd m = true -> 0 < m -> 0 <= x < m ->
+  0 <= half_mod m x < m /\ (2 * half_mod m x = x \/ 2 * half_mod m x = x + m).
+Proof. exact half_mod_correct. Qed.
+Print Assumptions C08_spec_half.
+
+(** * Montgomery reduction (src/modular/reduction.rs) *)
+(** the inner loops with the meta-carry: R * (upper' + R * meta) = T + U * m, 0 <= U < R, meta <= 1 *)
+Theorem C08_reduction_inner : forall (lower upper m : list Z) (k : Z) (up : list Z) (meta : Z),
+  wf lower -> wf upper -> wf m -> length lower = length m -> length upper = length m -> length m <> 0%nat ->
+  (hd 0 m * k + 1) mod B = 0 ->
+  montgomery_reduction_inner lower upper m k = (up, meta) ->
+  wf up /\ length up = length m /\ 0 <= meta <= 1 /\
+  (exists U : Z, 0 <= U < Bn (length m) /\
+     Bn (length m) * (eval up + Bn (length m) * meta) = eval lower + Bn (length m) * eval upper + U * eval m).
+Proof. exact mred_inner_correct. Qed.
+Print Assumptions C08_reduction_inner.
+
+(** one meta-carry bit is always enough (any T < R * R) *)
+Theorem C08_reduction_meta_carry_bound : forall (lower upper m : list Z) (k : Z) (up : list Z) (meta : Z),
+  wf lower -> wf upper -> wf m -> length lower = length m -> length upper = length m -> length m <> 0%nat ->
+  (hd 0 m * k + 1) mod B = 0 ->
+  montgomery_reduction_inner lower upper m k = (up, meta) ->
+  eval up + Bn (length m) * meta < Bn (length m) + eval m.
+Proof. exact mred_inner_bound. Qed.
+Print Assumptions C08_reduction_meta_carry_bound.
+
+(** T < m * R: the single final conditional subtraction suffices; the result is canonical and is T * R^-1 mod m *)
+Theorem C08_montgomery_reduction_correct : forall (lower upper m : list Z) (k : Z),
+  wf lower -> wf upper -> wf m -> length lower = length m -> length upper = length m -> length m <> 0%nat ->
+  (hd 0 m * k + 1) mod B = 0 ->
+  eval lower + Bn (length m) * eval upper < eval m * Bn (length m) ->
+  let r := montgomery_reduction lower upper m k in
+  wf r /\ length r = length m /\ 0 <= eval r < eval m /\
+  (eval r * Bn (length m)) mod eval m = (eval lower + Bn (length m) * eval upper) mod eval m.
+Proof. exact mont_red_correct. Qed.
+Print Assumptions C08_montgomery_reduction_correct.
+
+Theorem C08_sub_mod_with_carry : forall (a : list Z) (carry : Z) (b p : list Z),
+  wf a -> wf b -> wf p -> length a = length b -> length a = length p -> length a <> 0%nat ->
+  0 <= carry <= 1 ->
+  - eval p <= eval a + Bn (length a) * carry - eval b < eval p ->
+  eval (sub_mod_with_carry a carry b p) = (eval a + Bn (length a) * carry - eval b) mod eval p /\
+  wf (sub_mod_with_carry a carry b p) /\ length (sub_mod_with_carry a carry b p) = length a.
+Proof. exact sub_mod_with_carry_correct. Qed.
+Print Assumptions C08_sub_mod_with_carry.
+
+(** * Almost-Montgomery multiplication (src/modular/boxed_monty_form/mul.rs) *)
+(** any x, y < R (not necessarily reduced): R * (AMM + e m) = x y + U m, AMM < R *)
+Theorem C08_amm_correct : forall (m : list Z) (k : Z), wf m -> length m <> 0%nat -> (hd 0 m * k + 1) mod B = 0 ->
+  forall x y : list Z, wf x -> wf y -> length x = length m -> length y = length m -> 0 < eval m ->
+  let a := almost_montgomery_mul x y m k in
+  wf a /\ length a = length m /\ 0 <= eval a < Bn (length m) /\
+  (exists U e : Z, 0 <= U < Bn (length m) /\ 0 <= e <= 1 /\
+     Bn (length m) * (eval a + e * eval m) = eval x * eval y + U * eval m).
+Proof. exact amm_correct. Qed.
+Print Assumptions C08_amm_correct.
+
+Theorem C08_amm_congruent : forall (m : list Z) (k : Z), wf m -> length m <> 0%nat -> (hd 0 m * k + 1) mod B = 0 ->
+  forall x y : list Z, wf x -> wf y -> length x = length m -> length y = length m -> 0 < eval m ->
+  (eval (almost_montgomery_mul x y m k) * Bn (length m)) mod eval m = (eval x * eval y) mod eval m.
+Proof. exact amm_congr. Qed.
+Print Assumptions C08_amm_congruent.
+
+(** remark 1 of the source ("discovered via randomized tests, not proven"): f(AMM(x, y)) <= min(f x, f y) + 1 *)
+Theorem C08_amm_bound : forall (m : list Z) (k : Z), wf m -> length m <> 0%nat -> (hd 0 m * k + 1) mod B = 0 ->
+  forall x y : list Z, wf x -> wf y -> length x = length m -> length y = length m -> 0 < eval m ->
+  eval (almost_montgomery_mul x y m k) / eval m <= Z.min (eval x / eval m) (eval y / eval m) + 1.
+Proof. exact amm_bound. Qed.
+Print Assumptions C08_amm_bound.
+
+(** one canonical operand: AMM < 2 m, so ONE conditional subtraction fully reduces *)
+Theorem C08_amm_lt_2m : forall (m : list Z) (k : Z), wf m -> length m <> 0%nat -> (hd 0 m * k + 1) mod B = 0 ->
+  forall x y : list Z, wf x -> wf y -> length x = length m -> length y = length m -> 0 < eval m ->
+  eval x < eval m \/ eval y < eval m -> eval (almost_montgomery_mul x y m k) < 2 * eval m.
+Proof. exact amm_lt_2m. Qed.
+Print Assumptions C08_amm_lt_2m.
+
+Theorem C08_boxed_sub_assign_mod_with_carry : forall m : list Z, wf m -> length m <> 0%nat ->
+  forall a b : list Z, wf a -> wf b -> length a = length m -> length b = length m ->
+  - eval m <= eval a - eval b < eval m ->
+  let r := boxed_sub_assign_mod_with_carry a 0 b m in
+  wf r /\ length r = length m /\ eval r = (eval a - eval b) mod eval m.
+Proof. exact boxed_sub_assign_mod_with_carry_correct. Qed.
+Print Assumptions C08_boxed_sub_assign_mod_with_carry.
+
+(** BoxedMontyMultiplier::mul_assign / square_assign: canonical result, x y R^-1 mod m *)
+Theorem C08_boxed_mul_correct : forall (m : list Z) (k : Z), wf m -> length m <> 0%nat -> (hd 0 m * k + 1) mod B = 0 ->
+  forall x y : list Z, wf x -> wf y -> length x = length m -> length y = length m -> 0 < eval m ->
+  eval x < eval m \/ eval y < eval m ->
+  let r := boxed_monty_mul x y m k in
+  wf r /\ length r = length m /\ 0 <= eval r < eval m /\
+  (eval r * Bn (length m)) mod eval m = (eval x * eval y) mod eval m.
+Proof. exact boxed_monty_mul_correct. Qed.
+Print Assumptions C08_boxed_mul_correct.
+
+(** retrieve = multiplication by one WITHOUT a final subtraction: fully reduced for canonical input *)
+Theorem C08_amm_by_one_reduced : forall (m : list Z) (k : Z), wf m -> length m <> 0%nat -> (hd 0 m * k + 1) mod B = 0 ->
+  forall x : list Z, wf x -> length x = length m -> eval x < eval m ->
+  let a := almost_montgomery_mul_by_one x m k in
+  wf a /\ length a = length m /\ 0 <= eval a < eval m /\
+  (eval a * Bn (length m)) mod eval m = eval x mod eval m.
+Proof. exact amm_by_one_reduced. Qed.
+Print Assumptions C08_amm_by_one_reduced.
+
+(** remarks 2 and 3 of the same source comment are false as stated (and not relied upon by any caller) *)
+Theorem C08_amm_by_one_remark_refuted :
+  exists m x, wf m /\ wf x /\ length x = length m /\ Z.odd (eval m) = true /\
+              ~ eval (almost_montgomery_mul_by_one x m (mod_neg_inv_of m)) < eval m.
+Proof. exact amm_by_one_remark_refuted. Qed.
+Print Assumptions C08_amm_by_one_remark_refuted.
+
+Theorem C08_amm_square_remark_refuted :
+  exists m x, wf m /\ wf x /\ length x = length m /\ Z.odd (eval m) = true /\
+              ~ eval (almost_montgomery_mul x x m (mod_neg_inv_of m)) / eval m <= 1.
+Proof. exact amm_square_remark_refuted. Qed.
+Print Assumptions C08_amm_square_remark_refuted.
+
+(** * Halving (src/modular/div_by_2.rs) *)
+Theorem C08_div_by_2 : forall m : list Z, wf m -> length m <> 0%nat -> Z.odd (eval m) = true ->
+  forall a : list Z, canon m a ->
+  let h := div_by_2 a m in canon m h /\ eval h = half_mod (eval m) (eval a).
+Proof. exact div_by_2_val. Qed.
+Print Assumptions C08_div_by_2.
+
+Theorem C08_boxed_div_by_2 : forall m : list Z, wf m -> length m <> 0%nat -> Z.odd (eval m) = true ->
+  forall a : list Z, canon m a ->
+  let h := boxed_div_by_2 a m in canon m h /\ eval h = half_mod (eval m) (eval a).
+Proof. exact boxed_div_by_2_val. Qed.
+Print Assumptions C08_boxed_div_by_2.
+
+(** * Parameters *)
+(** the 64-step loop of inv_mod2k_vartime on the low word *)
+Theorem C08_inv_mod2k_word : forall a : Z, Z.odd a = true -> 0 <= a < B ->
+  0 <= inv_mod2k_word a < B /\ (a * inv_mod2k_word a) mod B = 1.
+Proof. exact inv_mod2k_word_correct. Qed.
+Print Assumptions C08_inv_mod2k_word.
+
+(** mod_neg_inv = -m^-1 mod 2^64, and it equals the independent (Hensel) computation of the specification *)
+Theorem C08_mod_neg_inv : forall m : list Z, Z.odd (hd 0 m) = true -> is_word (hd 0 m) ->
+  is_word (mod_neg_inv_of m) /\ (hd 0 m * mod_neg_inv_of m + 1) mod B = 0.
+Proof. exact mod_neg_inv_of_ok. Qed.
+Print Assumptions C08_mod_neg_inv.
+
+Theorem C08_mod_neg_inv_eq_spec : forall m0 : Z, Z.odd m0 = true -> 0 <= m0 < B ->
+  wsub 0 (inv_mod2k_word m0) = spec_neg_inv m0.
+Proof. exact neg_inv_model_eq_spec. Qed.
+Print Assumptions C08_mod_neg_inv_eq_spec.
+
+(** MontyParams::new / new_vartime / impl_modulus!: every field equals its definition, for every odd modulus *)
+Theorem C08_params_fixed_correct : forall m : list Z, wf m -> length m <> 0%nat -> Z.odd (eval m) = true ->
+  let n := length m in let N := Bn n in let M := eval m in
+  params_fixed m = {| mp_m := m; mp_one := to_limbs n (N mod M); mp_r2 := to_limbs n ((N * N) mod M);
+                      mp_r3 := to_limbs n ((N * N * N) mod M); mp_k := spec_neg_inv (M mod B);
+                      mp_lz := Z.min (64 * Z.of_nat n - mt_bitlen M) 63 |}
+  /\ (hd 0 m * mp_k (params_fixed m) + 1) mod B = 0.
+Proof. exact params_fixed_correct. Qed.
+Print Assumptions C08_params_fixed_correct.
+
+(** BoxedMontyParams::new / new_vartime (r3 through the almost-Montgomery square) *)
+Theorem C08_params_boxed_correct : forall m : list Z, wf m -> length m <> 0%nat -> Z.odd (eval m) = true ->
+  let n := length m in let N := Bn n in let M := eval m in
+  params_boxed m = {| mp_m := m; mp_one := to_limbs n (N mod M); mp_r2 := to_limbs n ((N * N) mod M);
+                      mp_r3 := to_limbs n ((N * N * N) mod M); mp_k := spec_neg_inv (M mod B);
+                      mp_lz := Z.min (64 * Z.of_nat n - mt_bitlen M) 63 |}
+  /\ (hd 0 m * mp_k (params_boxed m) + 1) mod B = 0.
+Proof. exact params_boxed_correct. Qed.
+Print Assumptions C08_params_boxed_correct.
+
+Theorem C08_params_constructors_agree : forall m : list Z, wf m -> length m <> 0%nat -> Z.odd (eval m) = true ->
+  params_fixed m = params_boxed m.
+Proof. exact params_constructors_agree. Qed.
+Print Assumptions C08_params_constructors_agree.
+
+(** the modulus 1 (F6, repaired by b8bb467): one = r2 = r3 = 0 at every width, all constructors *)
+Theorem C08_params_modulus_one : forall m : list Z, wf m -> length m <> 0%nat -> eval m = 1 ->
+  let z := zeros (length m) in
+  mp_one (params_fixed m) = z /\ mp_r2 (params_fixed m) = z /\ mp_r3 (params_fixed m) = z /\
+  mp_one (params_boxed m) = z /\ mp_r2 (params_boxed m) = z /\ mp_r3 (params_boxed m) = z.
+Proof. exact params_modulus_one. Qed.
+Print Assumptions C08_params_modulus_one.
+
+(** the expression of the tree before b8bb467, Uint::MAX.rem(m).wrapping_add(ONE), is not R mod m (and not < m) at m = 1 *)
+Theorem C08_params_one_before_fix_refuted :
+  exists m, wf m /\ Z.odd (eval m) = true /\ eval (params_one_head m) <> Bn (length m) mod eval m
+            /\ ~ eval (params_one_head m) < eval m.
+Proof. exact params_one_head_refuted. Qed.
+Print Assumptions C08_params_one_before_fix_refuted.
+
+(** * One operation on representatives: [repr m a v] = a is canonical (< m) and eval a = v R mod m *)
+Theorem C08_backend_fixed_ok : forall (m : list Z) (k : Z), wf m -> length m <> 0%nat -> Z.odd (eval m) = true ->
+  (hd 0 m * k + 1) mod B = 0 ->
+  forall p : mparams, mp_m p = m -> mp_k p = k -> canon m (mp_r2 p) ->
+  eval (mp_r2 p) = (Bn (length m) * Bn (length m)) mod eval m -> backend_ok m (backend_fixed p).
+Proof. exact backend_fixed_ok. Qed.
+Print Assumptions C08_backend_fixed_ok.
+
+Theorem C08_backend_boxed_ok : forall (m : list Z) (k : Z), wf m -> length m <> 0%nat -> Z.odd (eval m) = true ->
+  (hd 0 m * k + 1) mod B = 0 ->
+  forall p : mparams, mp_m p = m -> mp_k p = k -> canon m (mp_r2 p) ->
+  eval (mp_r2 p) = (Bn (length m) * Bn (length m)) mod eval m -> backend_ok m (backend_boxed p).
+Proof. exact backend_boxed_ok. Qed.
+Print Assumptions C08_backend_boxed_ok.
+
+(** * Operation histories *)
+(** any representation that satisfies [backend_ok]: after ANY admissible op list the stored values are the canonical
+    representatives of the residues of the plain Z/mZ evaluation (index by index), and every output emitted
+    (as_montgomery() and retrieve() after EVERY step) is the output of the plain evaluation.
+    Proved by induction over fold_left (h_step ..) ops with the invariant [hinv]. *)
+Theorem C08_histories_generic : forall (m : list Z) (be : backend) (p : mparams) (inputs : list (list Z)),
+  wf m -> length m <> 0%nat -> Z.odd (eval m) = true ->
+  backend_ok m be -> mp_m p = m -> repr m (mp_one p) (1 mod eval m) ->
+  Forall (fun x : list Z => wf x /\ length x = length m) inputs ->
+  forall ops : list mop, ops_ok (length inputs) 0 ops = true ->
+  Forall2 (repr m) (fst (history be p inputs ops)) (fst (sp_history (eval m) (length m) inputs ops)) /\
+  snd (history be p inputs ops) = snd (sp_history (eval m) (length m) inputs ops).
+Proof. exact history_correct. Qed.
+Print Assumptions C08_histories_generic.
+
+(** one step preserves the invariant *)
+Theorem C08_history_step_invariant : forall (m : list Z) (be : backend) (p : mparams) (inputs : list (list Z)),
+  wf m -> length m <> 0%nat -> Z.odd (eval m) = true ->
+  backend_ok m be -> mp_m p = m -> repr m (mp_one p) (1 mod eval m) ->
+  Forall (fun x : list Z => wf x /\ length x = length m) inputs ->
+  forall (st : hstate) (sst : sstate) (o : mop), hinv m st sst -> op_ok (length inputs) (length (fst st)) o = true ->
+  hinv m (h_step be p inputs st o) (sp_step (eval m) (length m) inputs sst o).
+Proof. exact h_step_inv. Qed.
+Print Assumptions C08_history_step_invariant.
+
+(** MontyForm / ConstMontyForm with the parameters of their constructors *)
+Theorem C08_histories_fixed : forall (m : list Z) (inputs : list (list Z)) (ops : list mop),
+  wf m -> length m <> 0%nat -> Z.odd (eval m) = true ->
+  Forall (fun x => wf x /\ length x = length m) inputs -> ops_ok (length inputs) 0 ops = true ->
+  let h := history (backend_fixed (params_fixed m)) (params_fixed m) inputs ops in
+  let s := sp_history (eval m) (length m) inputs ops in
+  Forall2 (repr m) (fst h) (fst s) /\ snd h = snd s.
+Proof. exact history_fixed_correct. Qed.
+Print Assumptions C08_histories_fixed.
+
+(** BoxedMontyForm (almost-Montgomery multiplication) with the parameters of its constructors *)
+Theorem C08_histories_boxed : forall (m : list Z) (inputs : list (list Z)) (ops : list mop),
+  wf m -> length m <> 0%nat -> Z.odd (eval m) = true ->
+  Forall (fun x => wf x /\ length x = length m) inputs -> ops_ok (length inputs) 0 ops = true ->
+  let h := history (backend_boxed (params_boxed m)) (params_boxed m) inputs ops in
+  let s := sp_history (eval m) (length m) inputs ops in
+  Forall2 (repr m) (fst h) (fst s) /\ snd h = snd s.
+Proof. exact history_boxed_correct. Qed.
+Print Assumptions C08_histories_boxed.
+
+(** every stored value after every prefix of the history is canonical (< m) *)
+Theorem C08_histories_fixed_canonical : forall (m : list Z) (inputs : list (list Z)) (ops : list mop) (k : nat),
+  wf m -> length m <> 0%nat -> Z.odd (eval m) = true ->
+  Forall (fun x => wf x /\ length x = length m) inputs -> ops_ok (length inputs) 0 ops = true ->
+  Forall (fun v => wf v /\ length v = length m /\ 0 <= eval v < eval m)
+         (fst (history (backend_fixed (params_fixed m)) (params_fixed m) inputs (firstn k ops))).
+Proof. exact history_fixed_canonical. Qed.
+Print Assumptions C08_histories_fixed_canonical.
+
+Theorem C08_histories_boxed_canonical : forall (m : list Z) (inputs : list (list Z)) (ops : list mop) (k : nat),
+  wf m -> length m <> 0%nat -> Z.odd (eval m) = true ->
+  Forall (fun x => wf x /\ length x = length m) inputs -> ops_ok (length inputs) 0 ops = true ->
+  Forall (fun v => wf v /\ length v = length m /\ 0 <= eval v < eval m)
+         (fst (history (backend_boxed (params_boxed m)) (params_boxed m) inputs (firstn k ops))).
+Proof. exact history_boxed_canonical. Qed.
+Print Assumptions C08_histories_boxed_canonical.
+
+(** conversions const -> dyn -> boxed reuse the stored parameters: ANY parameter record holding the defined values
+    ([params_good]: modulus, one = R mod m, r2 = R^2 mod m, m * k = -1 mod 2^64) drives either backend correctly *)
+Theorem C08_histories_fixed_any_good_params : forall m : list Z, wf m -> length m <> 0%nat -> Z.odd (eval m) = true ->
+  forall (p : mparams) (inputs : list (list Z)) (ops : list mop), params_good m p ->
+  Forall (fun x : list Z => wf x /\ length x = length m) inputs -> ops_ok (length inputs) 0 ops = true ->
+  Forall2 (repr m) (fst (history (backend_fixed p) p inputs ops)) (fst (sp_history (eval m) (length m) inputs ops)) /\
+  snd (history (backend_fixed p) p inputs ops) = snd (sp_history (eval m) (length m) inputs ops).
+Proof. exact history_fixed_good. Qed.
+Print Assumptions C08_histories_fixed_any_good_params.
+
+Theorem C08_histories_boxed_any_good_params : forall m : list Z, wf m -> length m <> 0%nat -> Z.odd (eval m) = true ->
+  forall (p : mparams) (inputs : list (list Z)) (ops : list mop), params_good m p ->
+  Forall (fun x : list Z => wf x /\ length x = length m) inputs -> ops_ok (length inputs) 0 ops = true ->
+  Forall2 (repr m) (fst (history (backend_boxed p) p inputs ops)) (fst (sp_history (eval m) (length m) inputs ops)) /\
+  snd (history (backend_boxed p) p inputs ops) = snd (sp_history (eval m) (length m) inputs ops).
+Proof. exact history_boxed_good. Qed.
+Print Assumptions C08_histories_boxed_any_good_params.
+
+Theorem C08_constructor_params_good : forall m : list Z, wf m -> length m <> 0%nat -> Z.odd (eval m) = true ->
+  params_good m (params_fixed m) /\ params_good m (params_boxed m).
+Proof. exact (fun m Hm Hn Ho => conj (params_fixed_good m Hm Hn Ho) (params_boxed_good m Hm Hn Ho)). Qed.
+Print Assumptions C08_constructor_params_good.
+
+(** * The table theorem: what the correspondence runs compare the crate with is, on the documented domain, the
+      specification — every key of ops_monty_model *)
+Theorem C08_table_keys : map fst ops_monty_model = monty_keys /\ map fst ops_monty_spec = monty_keys.
+Proof. exact (conj monty_keys_model monty_keys_spec). Qed.
+Print Assumptions C08_table_keys.
+
+Theorem C08_tables_agree : forall k dbg a, In k monty_keys -> wf_args8 a ->
+  run_op8 ops_monty_spec k dbg a <> Unsupported ->
+  run_op8 ops_monty_model k dbg a = run_op8 ops_monty_spec k dbg a.
+Proof. exact monty_tables_agree. Qed.
+Print Assumptions C08_tables_agree.
+
+(** * Non-vacuity (concrete multi-limb values, vm_compute) *)
+(** m = 2^128 - 159 (two limbs); New(2^128 - 1), One, Mul, Square, Half, SubAssign, Select, Retrieve ... *)
+Definition ex_m : list Z := [18446744073709551457; 18446744073709551615].
+Definition ex_inputs : list (list Z) := [[18446744073709551615; 18446744073709551615]; [5; 7]].
+Definition ex_ops : list mop :=
+  [(0,0,0,0); (0,1,0,1); (2,0,0,0); (7,0,1,3); (8,3,0,0); (9,4,0,0); (14,0,1,0); (10,0,5,1); (3,2,6,0); (5,7,0,0);
+   (11,1,0,0); (15,1,0,0); (6,1,0,0); (4,2,1,0); (12,3,0,0); (13,3,2,0); (16,3,0,0); (17,1,0,0); (1,0,0,0)].
+
+Example C08_nonvacuous_history_admissible : ops_ok (length ex_inputs) 0 ex_ops = true.
+Proof. vm_compute. reflexivity. Qed.
+Example C08_nonvacuous_history_fixed :
+  snd (history (backend_fixed (params_fixed ex_m)) (params_fixed ex_m) ex_inputs ex_ops)
+  = snd (sp_history (eval ex_m) 2 ex_inputs ex_ops)
+  /\ length (snd (sp_history (eval ex_m) 2 ex_inputs ex_ops)) = 38%nat
+  /\ nth 7 (snd (sp_history (eval ex_m) 2 ex_inputs ex_ops)) [] = to_limbs 2 ((158 * (5 + 7 * 2 ^ 64)) mod eval ex_m).
+Proof. vm_compute. repeat split; reflexivity. Qed.
+Example C08_nonvacuous_history_boxed :
+  snd (history (backend_boxed (params_boxed ex_m)) (params_boxed ex_m) ex_inputs ex_ops)
+  = snd (sp_history (eval ex_m) 2 ex_inputs ex_ops).
+Proof. vm_compute. reflexivity. Qed.
+(** T = m R - 1, the largest admissible input of the reduction *)
+Example C08_nonvacuous_reduction :
+  let T := eval ex_m * Bn 2 - 1 in
+  montgomery_reduction (to_limbs 2 T) (to_limbs 2 (T / Bn 2)) ex_m (mod_neg_inv_of ex_m) = to_limbs 2 (redc_spec 2 (eval ex_m) T)
+  /\ 0 < redc_spec 2 (eval ex_m) T.
+Proof. vm_compute. split; reflexivity. Qed.
+(** the modulus 1 on two limbs after the repair, and a three-limb modulus with a whole zero high limb (lz clamps at 63) *)
+Example C08_nonvacuous_params_one :
+  params_fixed [1; 0] = {| mp_m := [1; 0]; mp_one := [0; 0]; mp_r2 := [0; 0]; mp_r3 := [0; 0]; mp_k := MAXW; mp_lz := 63 |}.
+Proof. vm_compute. reflexivity. Qed.
+Example C08_nonvacuous_params :
+  mp_one (params_boxed [3; 5; 0]) = to_limbs 3 (2 ^ 192 mod (3 + 5 * 2 ^ 64)) /\
+  mp_r3 (params_boxed [3; 5; 0]) = to_limbs 3 ((2 ^ 192 * 2 ^ 192 * 2 ^ 192) mod (3 + 5 * 2 ^ 64)) /\
+  mp_lz (params_boxed [3; 5; 0]) = 63 /\ mp_r3 (params_boxed [3; 5; 0]) <> zeros 3.
+Proof. vm_compute. repeat split; try reflexivity. intro H; discriminate H. Qed.
+(** table lookups really find functions: a value, a panic (even modulus), an Unsupported (T >= m R) *)
+Example C08_nonvacuous_tables :
+  run_op8 ops_monty_model "monty.boxed_mul_mod" false [[7; 1]; [9; 2]; ex_m]
+    = Val [to_limbs 2 (((7 + 2 ^ 64) * (9 + 2 * 2 ^ 64)) mod eval ex_m)] /\
+  run_op8 ops_monty_spec "monty.uint_mul_mod" false [[7; 1]; [9; 2]; [4; 1]] = PanicV /\
+  run_op8 ops_monty_model "monty.uint_mul_mod" false [[7; 1]; [9; 2]; [4; 1]] = PanicV /\
+  run_op8 ops_monty_spec "monty.reduction" false [[0; 0]; ex_m; ex_m; [mod_neg_inv_of ex_m]] = Unsupported.
+Proof. vm_compute. repeat split; reflexivity. Qed.
